@@ -25,6 +25,17 @@ The reference processes a translation unit given as the list of its preprocessin
 * a directive reached at the top level of the scan is executed (`#define`, `#undef`; `#pragma`,
   `#line`, line markers and the null directive have no effect on the token sequence).
 
+**Two readings of "nested replacement" (6.10.3.4p2).**  In Prosser's formulation a token keeps
+its hide set for ever, also after the complete macro replacement of the argument it belongs to
+has ended and the result has been substituted (`strict := true`).  The text of 6.10.3.1 and
+6.10.3.4p2 only makes the names *found non-replaceable* stay so ("these nonreplaced macro name
+preprocessing tokens are no longer available for further replacement even if they are later
+(re)examined"): a function-like name that merely was not followed by `(` inside the argument, and
+is invoked later during the rescan of the outer replacement list, is not nested in the
+argument's (finished) replacements.  `strict := false` (the default, and what gcc and clang do)
+reads it that way: substituted argument tokens keep only their `painted` mark.  The two readings
+differ only for such late invocations; the driver reports when they do.
+
 White space matters only through `#`: a token remembers whether white space (or a new-line)
 preceded it; the first token of a replacement takes that flag from the token replaced, and a
 replacement by no tokens passes the flag on to the next token.
@@ -53,10 +64,12 @@ structure PTok where
 /-- the observable part of a token -/
 def PTok.key (t : PTok) : Kind × Option Name := (t.kind, t.lit)
 
-/-- a token with its hide set -/
+/-- a token with its hide set; `painted` = it was found to be a macro name that must not be
+replaced (6.10.3.4p2: "no longer available for further replacement even if later (re)examined") -/
 structure HTok where
   tok : PTok
   hs : List Name := []
+  painted : Bool := false
   deriving DecidableEq, Repr, Inhabited
 
 structure MacroDef where
@@ -224,7 +237,7 @@ def lineItems (l : List PTok) : List Item :=
   | t :: r =>
     if t.kind = .THASH then [.dir (parseDirective r)]
     else if t.kind = .TNONE then [.dir (.bad .lex)]
-    else (.tok ⟨{ t with space := true }, []⟩) :: r.map (fun x => .tok ⟨x, []⟩)
+    else (.tok ⟨{ t with space := true }, [], false⟩) :: r.map (fun x => .tok ⟨x, [], false⟩)
 
 def items (unit : List PTok) : List Item := (splitLines unit []).flatMap lineItems
 
@@ -367,9 +380,9 @@ def elems (m : MacroDef) : List PTok → List Elem
 complete macro replacement; `pending` = white space to pass on -/
 def subst (raw full : Nat → List HTok) : List Elem → Bool → List HTok
   | [], _ => []
-  | .tok t :: r, pending => ⟨{ t with space := t.space || pending }, []⟩ :: subst raw full r false
+  | .tok t :: r, pending => ⟨{ t with space := t.space || pending }, [], false⟩ :: subst raw full r false
   | .str i sp :: r, pending =>
-    ⟨{ stringizeRef ((raw i).map (·.tok)) with space := sp || pending }, []⟩ :: subst raw full r false
+    ⟨{ stringizeRef ((raw i).map (·.tok)) with space := sp || pending }, [], false⟩ :: subst raw full r false
   | .param i sp :: r, pending =>
     let x := respace (full i) (sp || pending)
     x.1 ++ subst raw full r x.2
@@ -392,26 +405,27 @@ def Out.flag (f : Flag) (o : Out) : Out := { o with flags := f :: o.flags }
 
 /-- the algorithm proper, on tokens with hide sets; the output keeps the hide sets (needed when
 the output is an argument's replacement that is substituted and rescanned) -/
-def expandH : Nat → Tbl → List Item → List HTok × Option RErr × List Flag
+def expandH (strict : Bool) : Nat → Tbl → List Item → List HTok × Option RErr × List Flag
   | 0, _, _ => ([], some .fuel, [])
   | _ + 1, _, [] => ([], none, [])
   | n + 1, tbl, .dir d :: rest =>
     match d with
     | .bad e => ([], some e, [])
-    | .nop => expandH n tbl rest
-    | .undef nm => expandH n (erase tbl nm) rest
+    | .nop => expandH strict n tbl rest
+    | .undef nm => expandH strict n (erase tbl nm) rest
     | .define m =>
       match lookup tbl m.name with
       | some old =>
-        if identical old m then expandH n (insert tbl m) rest
+        if identical old m then expandH strict n (insert tbl m) rest
         else if identicalModSpace old m then ([], some .redefinitionSpace, [])
         else ([], some .redefinition, [])
-      | none => expandH n (insert tbl m) rest
+      | none => expandH strict n (insert tbl m) rest
   | n + 1, tbl, .tok T :: rest =>
-    let keep (_ : Unit) : List HTok × Option RErr × List Flag :=
-      let o := expandH n tbl rest
-      (T :: o.1, o.2.1, o.2.2)
-    if T.tok.kind ≠ .TIDENT then keep ()
+    let keepAs (T' : HTok) : List HTok × Option RErr × List Flag :=
+      let o := expandH strict n tbl rest
+      (T' :: o.1, o.2.1, o.2.2)
+    let keep (_ : Unit) := keepAs T
+    if T.tok.kind ≠ .TIDENT ∨ T.painted then keep ()
     else match lookup tbl (T.tok.lit.getD []) with
     | none => keep ()
     | some m =>
@@ -420,10 +434,11 @@ def expandH : Nat → Tbl → List Item → List HTok × Option RErr × List Fla
         let unspec : Bool := m.func && (match rest with
           | .tok L :: _ => L.tok.kind = .TLPAREN && !L.hs.contains m.name
           | _ => false)
-        if unspec then (let k := keep (); (k.1, k.2.1, .nestUnspec :: k.2.2)) else keep ()
+        let k := keepAs { T with painted := true }
+        if unspec then (k.1, k.2.1, .nestUnspec :: k.2.2) else k
       else if ¬ m.func then
-        let body := respace (hsadd (union T.hs [m.name]) (m.body.map fun t => ⟨t, []⟩)) T.tok.space
-        expandH n tbl (body.1.map .tok ++ pendItems body.2 rest)
+        let body := respace (hsadd (union T.hs [m.name]) (m.body.map fun t => ⟨t, [], false⟩)) T.tok.space
+        expandH strict n tbl (body.1.map .tok ++ pendItems body.2 rest)
       else match rest with
         | .tok L :: rest1 =>
           if L.tok.kind ≠ .TLPAREN then keep ()
@@ -439,21 +454,26 @@ def expandH : Nat → Tbl → List Item → List HTok × Option RErr × List Fla
                   -- complete macro replacement of the arguments that need it
                   let full : List (List HTok × Option RErr × List Flag) :=
                     (List.range args.length).map fun i =>
-                      if usedPlain m i then expandH n tbl ((args.getD i []).map .tok) else ([], none, [])
+                      if usedPlain m i then expandH strict n tbl ((args.getD i []).map .tok) else ([], none, [])
                   match full.findSome? (·.2.1) with
                   | some e => ([], some e, [])
                   | none =>
                     let hs := union (inter T.hs R.hs) [m.name]
                     let cross := if L.hs ≠ R.hs then [Flag.crossInvocation] else []
-                    let sub := subst (fun i => args.getD i []) (fun i => (full.getD i default).1) (elems m m.body) false
+                    -- the replacement of an argument is finished once it is substituted: unless `strict`
+                    -- (Prosser's original formulation) its tokens keep only the `painted` marks
+                    let done (i : Nat) : List HTok :=
+                      if strict then (full.getD i default).1
+                      else (full.getD i default).1.map fun t => { t with hs := [] }
+                    let sub := subst (fun i => args.getD i []) done (elems m m.body) false
                     let body := respace (hsadd hs sub) T.tok.space
-                    let o := expandH n tbl (body.1.map .tok ++ pendItems body.2 rest2)
+                    let o := expandH strict n tbl (body.1.map .tok ++ pendItems body.2 rest2)
                     (o.1, o.2.1, cross ++ full.flatMap (·.2.2) ++ o.2.2)
         | _ => keep ()
 
 /-- macro replacement of a translation unit -/
-def expandUnit (fuel : Nat) (unit : List PTok) : Out :=
-  let o := expandH fuel [] (items unit)
+def expandUnit (fuel : Nat) (unit : List PTok) (strict : Bool := false) : Out :=
+  let o := expandH strict fuel [] (items unit)
   { toks := o.1.map (·.tok), err := o.2.1, flags := o.2.2 }
 
 end CprocVerif.Spec.MacroRef
